@@ -28,6 +28,12 @@ pub enum Win {
     Or(Box<Win>, Box<Win>),
     /// NOT (ts < lo) AND NOT (ts > hi)
     NotOpp { lo: Bound, hi: Bound },
+    /// timestamp IN (b1, b2, ...) in the given order
+    In(Vec<Bound>),
+    /// (timestamp = b1 OR timestamp = b2 OR ...), flat, in the given order
+    OrEqs(Vec<Bound>),
+    /// conjunction of two finite windows
+    And(Box<Win>, Box<Win>),
 }
 
 #[derive(Clone, Debug, Serialize, Deserialize)]
@@ -117,6 +123,8 @@ pub struct Flags {
     pub ts_literal: bool,
     pub not_window: bool,
     pub or_window: bool,
+    pub in_list: bool,
+    pub and_window: bool,
     pub eq_in_or: bool,
     pub eq: bool,
     pub rev: bool,
@@ -163,6 +171,19 @@ fn win_sql(c: &Ctx, w: &Win, f: &mut Flags, in_or: bool) -> String {
         Win::NotOpp { lo, hi } => {
             f.not_window = true;
             format!("(NOT (timestamp < {}) AND NOT (timestamp > {}))", lit(c, lo, f), lit(c, hi, f))
+        }
+        Win::In(bs) => {
+            f.in_list = true;
+            format!("(timestamp IN ({}))", bs.iter().map(|b| lit(c, b, f)).collect::<Vec<_>>().join(", "))
+        }
+        Win::OrEqs(bs) => {
+            f.in_list = true;
+            f.eq = true;
+            format!("({})", bs.iter().map(|b| format!("timestamp = {}", lit(c, b, f))).collect::<Vec<_>>().join(" OR "))
+        }
+        Win::And(a, b) => {
+            f.and_window = true;
+            format!("({} AND {})", win_sql(c, a, f, in_or), win_sql(c, b, f, in_or))
         }
     }
 }
@@ -383,6 +404,8 @@ pub fn exec(case: &Case) -> Outcome {
             for (flag, name) in [
                 (flags.not_window, "q:not-window"),
                 (flags.or_window, "q:or-window"),
+                (flags.in_list, "q:timestamp-in-list-or-equality-chain"),
+                (flags.and_window, "q:and-of-windows"),
                 (flags.eq, "q:eq"),
                 (flags.rev, "q:reversed-operands"),
                 (flags.between, "q:between"),
@@ -463,10 +486,14 @@ fn window_hull(d: &Dataset, now: i64, w: &Win) -> (i64, i64) {
     match w {
         Win::Range { lo, hi, .. } | Win::Between { lo, hi } | Win::NotOpp { lo, hi } => (bound_value(&c, lo), bound_value(&c, hi)),
         Win::Eq { b, .. } => (bound_value(&c, b), bound_value(&c, b)),
-        Win::Or(a, b) => {
+        Win::Or(a, b) | Win::And(a, b) => {
             let (l1, h1) = window_hull(d, now, a);
             let (l2, h2) = window_hull(d, now, b);
             (l1.min(l2), h1.max(h2))
+        }
+        Win::In(bs) | Win::OrEqs(bs) => {
+            let vs: Vec<i64> = bs.iter().map(|b| bound_value(&c, b)).collect();
+            (vs.iter().copied().min().unwrap_or(0), vs.iter().copied().max().unwrap_or(0))
         }
     }
 }
@@ -574,8 +601,10 @@ fn win() -> impl Strategy<Value = Win> {
         2 => (bound(), bound()).prop_map(|(a, b)| { let (lo, hi) = if a.minute <= b.minute { (a, b) } else { (b, a) }; Win::Between { lo, hi } }),
         2 => (bound(), prop::bool::weighted(0.2)).prop_map(|(b, rev)| Win::Eq { b, rev }),
         1 => (bound(), bound()).prop_map(|(a, b)| { let (lo, hi) = if a.minute <= b.minute { (a, b) } else { (b, a) }; Win::NotOpp { lo, hi } }),
+        1 => prop::collection::vec(bound(), 1..8).prop_map(Win::In),
+        1 => prop::collection::vec(bound(), 2..8).prop_map(Win::OrEqs),
     ];
-    leaf.prop_recursive(2, 4, 2, |inner| (inner.clone(), inner).prop_map(|(a, b)| Win::Or(Box::new(a), Box::new(b))))
+    leaf.prop_recursive(2, 4, 2, |inner| prop_oneof![3 => (inner.clone(), inner.clone()).prop_map(|(a, b)| Win::Or(Box::new(a), Box::new(b))), 1 => (inner.clone(), inner).prop_map(|(a, b)| Win::And(Box::new(a), Box::new(b)))])
 }
 
 fn rest() -> impl Strategy<Value = Rest> {
